@@ -318,6 +318,14 @@ def run_check(check_id: str, tier: str, base_seed: int, out=sys.stdout):
     recs.sort(key=lambda r: r['i'])
     known = load_known_findings()
 
+    if os.environ.get('VERIF_DIGEST_LOG'):
+        # self-test aid: one line per run (index, event-log digest, verdict), compared between two batches
+        with open(os.environ['VERIF_DIGEST_LOG'], 'w') as f:
+            for rec in recs:
+                r_ = rec['res']
+                verdict = 'HARNESS:' + str(r_['harness_error']) if r_.get('harness_error') else \
+                    ','.join(sorted({v['clause'] for v in r_.get('violations') or []})) or 'ok'
+                f.write(f"{rec['i']} {r_.get('digest')} {r_.get('steps')} {verdict}\n")
     digests = set()
     nontrivial_digests = set()
     fault_counts, probes, strategies = {}, {}, {}
@@ -451,7 +459,8 @@ def run_check(check_id: str, tier: str, base_seed: int, out=sys.stdout):
     }
     if meta.get('exhaustive') is not None:
         evidence['coverage']['exhaustive'] = meta['exhaustive']
-    _write_json(os.path.join(VERIF, 'evidence', f'{check_id}.json'), evidence)
+    if not os.environ.get('VERIF_NO_EVIDENCE'):  # (self-tests must not overwrite the evidence of a real batch)
+        _write_json(os.path.join(VERIF, 'evidence', f'{check_id}.json'), evidence)
     zero = [k for k in (meta.get('expected_probes') or []) if not probes.get(k) and not fault_counts.get(k)]
     if zero:
         print(f'WARNING property={check_id} probes never hit in this batch: {zero}', file=out)
